@@ -149,6 +149,9 @@ SENDER_LOOP_TABLE = {
     "sender::blockencoder::BlockEncoder::read_window": "each iteration either pushes one block (len grows towards the "
         "window bound that the loop condition tests) or sets read_end (error / end of stream), both of which the "
         "condition tests.",
+    "sender::blockencoder::BlockEncoder::read_block_stream": "fill loop of the block buffer: every iteration either adds the "
+        "number of bytes read (>= 1, a read of 0 leaves the loop) to `result`, which the loop condition compares with the buffer "
+        "length, or retries after ErrorKind::Interrupted (the std read_exact idiom), or returns on any other error.",
     "sender::sender::Sender::read_priority_queue": "index advances by one modulo the fixed session list and the loop exits "
         "when it returns to its starting value.",
 }
